@@ -83,13 +83,25 @@ def handleFFRun (j : Json) : R Json := do
     | none => Json.null
     | some (a, b) => Json.arr #[fnameToJson a, fnameToJson b]).toArray)])
 
+def handleFFRead (j : Json) : R Json := do
+  let rules ← listOf (fun c => do
+    let a ← arrOf c
+    match a.toList with
+    | [t, r] => pure ((← natOf t), (← strOf r).toList)
+    | _ => throw "bad rule") (← getF j "rules")
+  let tb := readRules rules
+  pure (Json.mkObj [
+    ("type_dict", Json.arr (tb.typeDict.map fun p => natsToJson [p.1, p.2]).toArray),
+    ("type_rev", Json.arr (tb.typeRev.map fun p => natsToJson [p.1, p.2]).toArray),
+    ("resolved", Json.arr (rules.map fun p => match resolveRule tb p.2 with | some t => natToJson t | none => Json.null).toArray)])
+
 def handleAssign (j : Json) : R Json := do
   let rules ← listOf (fun c => do
     let a ← arrOf c
     match a.toList with
     | [t, r] => pure ((← natOf t), (← strOf r).toList)
     | _ => throw "bad rule") (← getF j "rules")
-  let dict := ruleDict rules
+  let tb := readRules rules
   let ms ← listOf (fun c => do
     let a ← arrOf c
     match a.toList with
@@ -98,9 +110,9 @@ def handleAssign (j : Json) : R Json := do
   let n ← natOf (← getF j "n")
   let mf : Rule → List Nat := fun r => ((ms.find? (·.1 == r)).map (·.2)).getD []
   let enc := fun (l : List (Nat × TypeName)) => Json.arr (l.map fun p => Json.arr #[natToJson p.1, natToJson p.2]).toArray
-  match assign dict mf n with
-  | .ok d => pure (Json.mkObj [("ok", Json.bool true), ("types", enc d)])
-  | .error d => pure (Json.mkObj [("ok", Json.bool false), ("types", enc d)])
+  let typed := (List.range n).filterMap fun a => (typeOfVia tb mf a).map (fun t => (a, t))
+  if typed.length = n then pure (Json.mkObj [("ok", Json.bool true), ("types", enc typed)])
+  else pure (Json.mkObj [("ok", Json.bool false), ("types", enc typed)])
 
 open GBS.P in
 def handleParse (j : Json) : R Json := do
@@ -188,6 +200,21 @@ def handleSAG (j : Json) : R Json := do
     ("edges", Json.arr (g.edges.map fun e => Json.arr #[natToJson e.src, natToJson e.dst, natToJson e.bond, ratToJson e.static,
         ratToJson e.stochastic, ratToJson e.termination, ratToJson e.transition]).toArray)])
 
+def handleAGen (j : Json) : R Json := do
+  let els ← listOf aelemOf (← getF j "els")
+  let ev ← listOf eventOf (← getF j "ev")
+  let fuel ← natOf (← getF j "fuel")
+  let g := stochAtomGraph els true
+  match atomGenerate g fuel ev with
+  | .error e => pure (Json.mkObj [("ok", Json.bool false), ("err", Json.str (reprStr e))])
+  | .ok (s, tr, rest) =>
+    pure (Json.mkObj [("ok", Json.bool true),
+      ("nodes", Json.arr (s.nodes.map fun n => natsToJson [n.stoch, n.z]).toArray),
+      ("edges", Json.arr (s.edges.map fun e => natsToJson [e.1, e.2.1, e.2.2]).toArray),
+      ("mw", ratsToJson s.mw),
+      ("trace", Json.arr (tr.map traceItemToJson).toArray),
+      ("rest", natToJson rest.length)])
+
 def handle (j : Json) : R Json := do
   let op ← strOf (← getF j "op")
   match op with
@@ -202,7 +229,9 @@ def handle (j : Json) : R Json := do
   | "RGRAPH" => handleRGraph j
   | "WELLPOSED" => handleWellPosed j
   | "SAG" => handleSAG j
+  | "AGEN" => handleAGen j
   | "ASSIGN" => handleAssign j
+  | "FFREAD" => handleFFRead j
   | "COMPATMAT" => handleCompatMat j
   | _ => throw s!"unknown op {op}"
 
